@@ -42,7 +42,7 @@ type config struct {
 	ballast            bool  // pre-allocate most of the device so that the next allocations cross a bitmap word
 	preopen            []int // sizes of the files that exist in the initial state (one per slot), saves depth
 	depth              map[string]int
-	baseFaults         bool // Engine A, "quotaconc": every base pool call may fail (one deviation each)
+	baseFaults         bool  // Engine A, "quotaconc": every base pool call may fail (one deviation each)
 	concSetup          []sop // Engine A: calls made one after another before the threads start
 }
 
